@@ -541,6 +541,7 @@ fn case_rule(id: &str, v: &serde_json::Value, ctx: &mut Ctx) -> Option<Out> {
     }
 
     let mut reads_part = Sx::new();
+    let mut gets_part = String::new();
     let mut otree_part = Sx::new();
     for n in &sw {
         let n = *n;
@@ -591,9 +592,24 @@ fn case_rule(id: &str, v: &serde_json::Value, ctx: &mut Ctx) -> Option<Out> {
                     None => w.atom("x"),
                     Some(negated) => {
                         let mut verdicts = String::with_capacity(docs.len());
-                        for d in &docs {
+                        for (di, d) in docs.iter().enumerate() {
+                            if reads {
+                                doc::get_log_start();
+                            }
                             let (c, keys) = observe(expr, &negated, ids, d);
                             verdicts.push(c);
+                            if reads {
+                                // every key asked of the root or of a nested object, hex (crate-only)
+                                let gets = doc::get_log_take();
+                                gets_part.push_str(&format!(" (gets {} {}", n, di));
+                                for k in &gets {
+                                    gets_part.push_str(" h");
+                                    for b in k.bytes() {
+                                        gets_part.push_str(&format!("{:02x}", b));
+                                    }
+                                }
+                                gets_part.push(')');
+                            }
                             if reads {
                                 if c == 'p' {
                                     reads_part.unit("panic");
@@ -627,6 +643,11 @@ fn case_rule(id: &str, v: &serde_json::Value, ctx: &mut Ctx) -> Option<Out> {
 
     if validate {
         validate_part(&mut w, &rule);
+    }
+    if !gets_part.is_empty() && extra.ends_with(')') {
+        extra.truncate(extra.len() - 1);
+        extra.push_str(&gets_part);
+        extra.push(')');
     }
     w.atom(&extra);
     w.close();
